@@ -166,7 +166,9 @@ Definition is_engine_closed (r : retv) : bool :=
   match r with RClosedRetryable | RRejected => true | _ => false end.
 (* both classification functions of the code base (generated from the source) *)
 Definition retryable (r : retv) : bool := retryable_pool_go false (is_engine_closed r).
-Definition retryable_tg (r : retv) : bool := retryable_telegram_go false (is_engine_closed r).
+(* the error behind every class of this model is never ErrConnDead / net.ErrClosed / EPIPE /
+   ECONNRESET (RSendErr stands for a transmission error that is none of these) *)
+Definition retryable_tg (r : retv) : bool := retryable_telegram_go false (is_engine_closed r) false false false.
 
 Definition is_returned (p : cpc) : bool := match p with PReturned _ => true | _ => false end.
 Definition is_closed_retryable (r : retv) : bool := match r with RClosedRetryable => true | _ => false end.
